@@ -308,7 +308,7 @@ pub fn property() -> Property {
         rule: "generated single-op executions: PredicateData/Len/Slots over solution sets of 1..6 solutions (slots of 0..40 words) with index-like slot/offset/length operands and every checked-solution index; ThisAddress/ThisContractAddress with random distinct addresses (also with a nearly full stack); PredicateExists with the hash of a present solution, of near misses (one word changed, slot boundary moved, one address bit flipped, addresses swapped, length prefixes omitted) and random hashes; Sha256 for every byte length 0..72 exhaustively and random lengths to 200 with garbage in the padding bytes; VerifyEd25519 with keys from generated seeds, valid signatures and single-bit corruptions of message/signature/key; RecoverSecp256k1 with generated keys, digests, recovery ids {0..3,4,-1,2^31,MAX,255}, corrupted/zero/all-ones/tiny-r signatures; all ops with too few operands. Oracle: RefVm, which indexes the generated data directly and calls the hash/sign crates on bytes it marshals itself; compared after the op and through exec_ops. Every case is non-trivial by construction (boundary operand, non-multiple-of-8 length, corrupted input or near-miss pre-image).",
         assumptions: vec![
             "Ed25519 public keys that are not curve points: an error or the result 0 are both accepted",
-            "malformed secp256k1 encodings (recovery id outside 0..=3, r/s not below the group order): an error or five zero words are both accepted",
+            "malformed secp256k1 encodings (recovery id outside 0..=3, r/s not below the group order) must be errors, as the sign crate answers for the same bytes; five zero words are reserved for well-formed but unrecoverable signatures",
         ],
         health: vec![],
         subs: vec![
